@@ -188,8 +188,8 @@ def trace_part(chk, S, n_examples):
             if c['seed'] % 2:
                 # a single-precision file with a few readings barely below zero
                 pts = pts.copy()
-                pts[::7, 0] = -0.125
-                pts[3::11, 1] = -0.5
+                pts[::7, 0] = -0.001
+                pts[3::11, 1] = -0.0005
                 data = S.load(pts, dt='F')
             else:
                 data = S.load(pts)
